@@ -150,12 +150,13 @@ def check_stored_is_instance_output(ctx, conf) -> None:
                construct="yaml dump of instance() in store_unreplicated_flowir_to_disk")
 
 
-def check_scope_precedence(ctx, fl, inst, flowir_lit, consts) -> None:
+def check_scope_precedence(ctx, fl, inst, flowir_lit, consts, rule: str = "C07.R7-flattening-keeps-scope-precedence",
+                           consequence: str = "the reloaded components get a different value (user variables are patched in as "
+                                              "platform-stage variables)") -> None:
     """R7 (LAYER engine): the writer (instance) and the live resolver (get_component_variables) are sibling
     implementations of one precedence order; compare them on all membership patterns of a name in the four scopes."""
     import itertools
     from vlib import layer
-    rule = "C07.R7-flattening-keeps-scope-precedence"
     gcv = fl.func("FlowIRConcrete.get_component_variables")
     ctx.analysed(gcv)
     # the dictionaries that instance() stores as variables.default.global / variables.default.stages
@@ -204,12 +205,61 @@ def check_scope_precedence(ctx, fl, inst, flowir_lit, consts) -> None:
                 ctx.ob(rule, inst, ok,
                        ("%s, name defined in %s: both let %s win" % (pf, where, SCOPE_TEXT[live])) if ok else
                        ("%s, a variable defined in %s: the live experiment resolves it from %s but the stored description "
-                        "keeps the value of %s (stage: %s, global: %s) - the reloaded components get a different value "
-                        "(user variables are patched in as platform-stage variables)"
-                        % (pf, where, SCOPE_TEXT[live], SCOPE_TEXT[written], SCOPE_TEXT[w.elems[sname].value], SCOPE_TEXT[w.env[gname].value])),
+                        "keeps the value of %s (stage: %s, global: %s) - %s"
+                        % (pf, where, SCOPE_TEXT[live], SCOPE_TEXT[written], SCOPE_TEXT[w.elems[sname].value], SCOPE_TEXT[w.env[gname].value],
+                           consequence)),
                        construct="instance() scope precedence %s %s" % ("default" if default_platform else "platform", "+".join(sorted(pat)) or "none"),
                        trivial=not pat)
     ctx.floor(rule, n_eval, 20, "scope membership patterns evaluated")
+
+
+def check_links_are_folders(ctx, fl) -> None:
+    rule = "C07.R10-links-are-folders-on-reload"
+    fd = fl.func("Manifest.fromDirectory")
+    ctx.analysed(fd)
+    st = ctx.repo.module("python/experiment/model/storage.py")
+    ep = st.func("ExperimentPackage.expandPackageToDirectory")
+    links = [c for c in source.calls_in(ep) if call_name(c) == "os.symlink"]
+    ctx.ob(rule, links[0] if links else ep, True,
+           "deployment %s top-level entries as symbolic links" % ("can create" if links else "does not create"), trivial=True,
+           construct="expandPackageToDirectory: os.symlink for ':link' entries")
+    # the tests that decide "this entry is a folder"
+    dir_tests = []
+    for c in ast.walk(fd):
+        if isinstance(c, ast.Call):
+            cn = call_name(c) or ""
+            if cn == "os.path.isdir" or last_attr(c) == "is_dir":
+                dir_tests.append(c)
+    # the one on the listing root itself does not count
+    entry_tests = [c for c in dir_tests if any(isinstance(a, ast.For) for a in source.ancestors(c) if a is not fd)]
+    ctx.floor(rule, len(entry_tests), 1, "directory tests on the entries of the listed directory")
+    for c in entry_tests:
+        nofollow = any(k.arg == "follow_symlinks" and isinstance(k.value, ast.Constant) and k.value.value is False for k in c.keywords)
+        # ... or a conjunct that excludes links
+        iff = next((a for a in source.ancestors(c) if isinstance(a, ast.If)), None)
+        excl = iff is not None and any(isinstance(x, ast.Call) and ((call_name(x) or "") == "os.path.islink" or last_attr(x) == "is_symlink")
+                                       for x in ast.walk(iff.test))
+        ok = not nofollow and not excl
+        ctx.ob(rule, c, ok,
+               "an entry that is a link to a directory counts as a top-level folder" if ok else
+               "Manifest.fromDirectory does not follow symbolic links when it lists the folders of a directory (%s): a folder that the "
+               "manifest placed with ':link' is missing from top_level_folders when the instance is loaded again, so 'reference-data/"
+               "table.csv:ref' is parsed as a reference to the component stage0.reference-data and the reload fails (or binds differently)"
+               % short(c, 50), construct="fromDirectory: %s follows links" % short(c, 40))
+
+
+def instance_literal(ctx, fl):
+    """(instance function, the dictionary literal it returns, FlowIR string constants) - shared with C04.R9"""
+    from checks.c08 import class_constants
+    consts = {k: v for k, v in class_constants(fl.cls("FlowIR")).items() if isinstance(v, str)}
+    inst = fl.func("FlowIRConcrete.instance")
+    ctx.analysed(inst)
+    rets = [r for r in source.walk_own(inst) if isinstance(r, ast.Return) and isinstance(r.value, ast.Name)]
+    RET = rets[-1].value.id if rets else "flowir"
+    lits = [v for v in match.assigned_value(inst, RET) if isinstance(v, ast.Dict)]
+    rets = [r for r in rets if r.value.id == RET]
+    ctx.require(len(lits) == 1 and bool(rets), "anchor missing: 'flowir = {...}; return flowir' in FlowIRConcrete.instance")
+    return inst, lits[0], consts
 
 
 def run(ctx) -> None:
@@ -227,6 +277,9 @@ def run(ctx) -> None:
     ctx.rule("C07.R4-iterations-persisted", "the controller instantiates the next iteration with store_flowir_to_disk=True and the graph stores after adding the components")
     ctx.rule("C07.R5-same-file-names", "store, generate and load use the same instance/manifest file names")
     ctx.rule("C07.R6-patch-before-store", "user variables are patched in before the unreplicated copy is taken and stored")
+    ctx.rule("C07.R10-links-are-folders-on-reload", "deployment places the manifest's folders by copy or by symbolic link; the discovery of the "
+             "top-level folders of an instance directory (Manifest.fromDirectory) must therefore follow links when it asks whether an entry "
+             "is a directory")
     ctx.rule("C07.R9-store-always-writes", "store_unreplicated_flowir_to_disk writes and publishes the description on every path that returns "
              "normally (no silent early return)")
     ctx.rule("C07.R8-stored-is-instance-output", "what is dumped to flowir_instance.yaml is the dictionary returned by instance(), passed "
@@ -298,6 +351,9 @@ def run(ctx) -> None:
             "_unreplicated" in source.src(c.func)
         ctx.ob("C07.R1-no-field-dropped", c, ok, "the unreplicated description is stored in primitive, non-filled form" if ok else
                "the stored description is not the primitive, unfilled unreplicated one (variables would be baked in / replicas stored)")
+
+    # ---------------- R10 ------------------------------------------------------------------------------
+    check_links_are_folders(ctx, fl)
 
     # ---------------- R7 -------------------------------------------------------------------------------
     check_scope_precedence(ctx, fl, inst, lits[0], consts)
